@@ -4,7 +4,7 @@ from fractions import Fraction
 
 import numpy as np
 
-from pero_ocr.core.layout import PageLayout, RegionLayout
+from pero_ocr.core.layout import PageLayout, RegionLayout, TextLine
 from pero_ocr.layout_engines import smart_sorter, naive_sorter
 
 
@@ -21,6 +21,12 @@ def _page(case):
             pts = [[x0, y0], [x1, y0], [(x0 + x1) / 2, (y0 + y1) / 2], [x1, y1], [x0, y1]]
         reg = RegionLayout('r%d' % i, np.array(pts, dtype=np.float64))
         reg.transcription = 'text %d' % i
+        if case.get('deskew') and i == 0:
+            # slanted lines in the first region: a non-zero de-skew angle
+            for k in range(2):
+                yb = y0 + 10 * (k + 1)
+                reg.lines.append(TextLine(id='r0-l%d' % k, baseline=np.array([[x0, yb], [x0 + 200.0, yb + 10.0]]),
+                                          polygon=np.array([[x0, yb - 5], [x0 + 200.0, yb + 5.0], [x0 + 200.0, yb + 12.0], [x0, yb + 2]]), heights=[5, 2]))
         pl.regions.append(reg)
     return pl
 
@@ -44,8 +50,17 @@ def _run(case):
     bad = None
     if sorted(map(id, after)) != sorted(map(id, before)):
         bad = 'not a permutation: %r' % ([r.id for r in after],)
-    elif any(not np.array_equal(r.polygon, q) for r, q in zip(before, polys)) or any(r.transcription != 'text %s' % r.id[1:] for r in before):
-        bad = 'a region was modified'
+    else:
+        for r, q in zip(before, polys):
+            got = np.asarray(r.polygon, dtype=float)
+            if case.get('deskew'):
+                # up to the round-off of the de-skew rotation (shapely also closes the ring: one repeated point more)
+                if got.shape[0] < q.shape[0] or not np.allclose(got[:q.shape[0]], q, atol=1e-6 * (1 + np.abs(q).max())):
+                    bad = 'polygon of region %s changed by sorting: %r -> %r' % (r.id, q.tolist(), got.tolist())
+            elif not np.array_equal(got, q):
+                bad = 'a region was modified'
+            if r.transcription != 'text %s' % r.id[1:]:
+                bad = 'region text changed'
     return [r.id for r in after], bad
 
 
